@@ -597,7 +597,7 @@ func (m *Machine) stepGuard(th *Thread) (yield bool) {
 		panic(pathEnd{"inconclusive", fmt.Sprintf("step budget %d exceeded%s", m.maxSteps, m.where())})
 	}
 	fr := th.top
-	if fr.status == stPanicking || (fr.status == stRecovered && fr.block == nil) {
+	if fr.status != stRunning {
 		m.unwindStep(th)
 		return false
 	}
@@ -843,7 +843,11 @@ func (m *Machine) step(th *Thread, fr *Frame) {
 		m.schedPoint("go")
 	case *ssa.MakeChan:
 		sz := m.get(fr, in.Size).(*Term)
-		n := m.concretizeInt(sz, "makechan size", 8)
+		sz64 := sextTo64(sz, in.Size.Type())
+		if m.branchVC(SLt(sz64, BVC(64, 0)), "makechan negative size") {
+			m.raiseRuntime("makechan: size out of range")
+		}
+		n := m.concretizeInt(sz64, "makechan size", 32)
 		if n < 0 {
 			m.raiseRuntime("makechan: size out of range")
 		}
